@@ -6,13 +6,17 @@ package main
 //   process <opts> <ops> <n> (<namehex> <texthex>){n}
 //     opts: string of flag letters, "-" for none: c = IgnoreSubmoduleCircularDependencies,
 //           n = IgnoreDeviateNotSupported, u = StoreUses, f = run the Find checks, q = run read queries twice
-//     ops : comma separated: L<i> load text i, P process (a dump is taken after every P)
+//     ops : comma separated: L<i> load text i, P process (a dump is taken after every P),
+//           D<i> write text i as a file (under its name) into a fresh temporary directory that is on the set's
+//           search path (ms.AddPath) WITHOUT loading it: Process then finds it through import / include resolution
 //   output: one JSON object {"loads":[..], "runs":[dump,...]}
 
 import (
 	"encoding/json"
 	"fmt"
 	"io"
+	"os"
+	"path/filepath"
 	"regexp"
 	"sort"
 	"strconv"
@@ -64,6 +68,7 @@ type nodeDump struct {
 	Output    *nodeDump   `json:"output,omitempty"`
 	HasRPC    bool        `json:"hasrpc,omitempty"`
 	NAugments int         `json:"naugments,omitempty"` // augments still pending on this entry
+	Extra     []string    `json:"extra,omitempty"`     // keyword=arg,arg,... of the statements kept in Entry.Extra (if-feature, must, when, ...)
 }
 
 type identDump struct {
@@ -264,6 +269,24 @@ func (w *walker) dump(e *yang.Entry, key string, parent *yang.Entry, path string
 	d.DefVals = e.DefaultValues()
 	if e.Prefix != nil {
 		d.Prefix = e.Prefix.Name
+	}
+	if len(e.Extra) > 0 {
+		var ks []string
+		for k := range e.Extra {
+			ks = append(ks, k)
+		}
+		sort.Strings(ks)
+		for _, k := range ks {
+			var vs []string
+			for _, v := range e.Extra[k] {
+				if n, ok := v.(yang.Node); ok && n != nil {
+					vs = append(vs, n.NName())
+				} else {
+					vs = append(vs, fmt.Sprintf("%T", v))
+				}
+			}
+			d.Extra = append(d.Extra, k+"="+strings.Join(vs, ","))
+		}
 	}
 	if e.Node != nil && e.Node.Statement() != nil {
 		d.Src = yang.Source(e.Node)
@@ -505,8 +528,27 @@ func runProcess(toks []string) string {
 	ms.ParseOptions.DeviateOptions.IgnoreDeviateNotSupported = strings.Contains(opts, "n")
 	ms.ParseOptions.StoreUses = strings.Contains(opts, "u")
 	out := &procOut{Loads: []string{}, Runs: []*runDump{}}
+	pathDir := ""
+	defer func() {
+		if pathDir != "" {
+			os.RemoveAll(pathDir)
+		}
+	}()
 	for _, op := range strings.Split(ops, ",") {
 		switch {
+		case strings.HasPrefix(op, "D"):
+			i, _ := strconv.Atoi(op[1:])
+			if pathDir == "" {
+				d, err := os.MkdirTemp("", "verifpath")
+				if err != nil {
+					return "BROKEN tempdir: " + err.Error()
+				}
+				pathDir = d
+				ms.AddPath(pathDir)
+			}
+			if err := os.WriteFile(filepath.Join(pathDir, filepath.Base(names[i])), []byte(texts[i]), 0o644); err != nil {
+				return "BROKEN write: " + err.Error()
+			}
 		case op == "P":
 			run := &runDump{Errors: []string{}, ErrPos: []string{}, TreeViol: []string{}, FindViol: []string{}}
 			errs := ms.Process()
